@@ -20,7 +20,7 @@ func init() { Registry["C12"] = run }
 
 const defaultLen = 45
 
-const coqHeader = "From Kava Require Import Base.Prelude Model.Staking Model.Tally Model.Liquid."
+const coqHeader = "From Kava Require Import Base.Prelude Model.Staking Model.Tally Model.Liquid Model.TallyTie."
 
 type Hist struct {
 	Seed  uint64 `json:"seed"`
@@ -315,6 +315,30 @@ func coqVotes(vs []Vote) string {
 	return List(it)
 }
 
+func coqCoins(cs []coinIn) string {
+	it := make([]string, len(cs))
+	for k, c := range cs {
+		it[k] = fmt.Sprintf("(%s, %s)", Nat(c.V), Z(c.Amt))
+	}
+	return List(it)
+}
+
+// coqTallyIn renders the recorded inputs of a tally (None for every other operation)
+func coqTallyIn(ti *tallyIn) string {
+	if ti == nil {
+		return "None"
+	}
+	cur := make([]string, len(ti.Curr))
+	for k, c := range ti.Curr {
+		cur[k] = fmt.Sprintf("(%s, (%s, %s))", Nat(c.V), Z(c.Tokens), Z(c.Shares))
+	}
+	vs := make([]string, len(ti.Voters))
+	for k, v := range ti.Voters {
+		vs[k] = fmt.Sprintf("(mkVI %s %s %s %s %s)", Nat(v.Voter), coqCoins(v.Dels), coqCoins(v.Wallet), coqCoins(v.Savings), coqCoins(v.Earn))
+	}
+	return fmt.Sprintf("(Some (mkTI %s %s %s %s))", List(cur), Z(ti.Bonded), List(vs), Z(ti.Total))
+}
+
 func coqPlace(p string) string {
 	if p == "savings" {
 		return "PSav"
@@ -495,7 +519,7 @@ func runHist(seed uint64, idx, n int, st *Setup, ops []Op, cnt *Counters) (o run
 			o.okOps++
 		}
 		splits(op, res, prev, after, o.splits, cnt)
-		steps = append(steps, fmt.Sprintf("(%s,\n    %s)", coqOp(op), coqObs(res, prev, after)))
+		steps = append(steps, fmt.Sprintf("(%s,\n    %s,\n    %s)", coqOp(op), coqObs(res, prev, after), coqTallyIn(res.tin)))
 		for _, f := range monitor(w, op, res, prev, after) {
 			if !seenSig[f.sig] {
 				seenSig[f.sig] = true
@@ -504,7 +528,7 @@ func runHist(seed uint64, idx, n int, st *Setup, ops []Op, cnt *Counters) (o run
 		}
 		prev = after
 	}
-	o.coq = fmt.Sprintf("mkHist %s\n  %s", header, List(steps))
+	o.coq = fmt.Sprintf("mkHist2 %s\n  %s", header, List(steps))
 	return
 }
 
@@ -694,7 +718,7 @@ func run(o Opts) (*Result, error) {
 			return nil, fmt.Errorf("replay file has no setup")
 		}
 		ro := runHist(h.Seed, h.Idx, 0, &h.Setup, h.Ops, cnt)
-		name, err := WriteShard(o.OutDir, 0, coqHeader, []string{ro.coq}, "mismatches")
+		name, err := WriteShard(o.OutDir, 0, coqHeader, []string{ro.coq}, "mismatches2")
 		if err != nil {
 			return nil, err
 		}
@@ -709,12 +733,20 @@ func run(o Opts) (*Result, error) {
 		return res, nil
 	}
 
-	outs := make([]runOut, o.N)
+	fixed := fixedHists()
+	outs := make([]runOut, o.N+len(fixed))
 	// only the first few witnesses of a signature are shrunk (the verdict needs one)
 	var mu sync.Mutex
 	shrunk := map[string]int{}
-	ParallelFor(o.N, o.Workers, func(i int) {
-		ro := runHist(o.Seed, i, n, nil, nil, cnt)
+	ParallelFor(o.N+len(fixed), o.Workers, func(i int) {
+		var ro runOut
+		if i >= o.N {
+			// the fixed histories (known-finding witnesses) run after the generated ones
+			fh := fixed[i-o.N]
+			ro = runHist(o.Seed, i, 0, &fh.Setup, fh.Ops, cnt)
+		} else {
+			ro = runHist(o.Seed, i, n, nil, nil, cnt)
+		}
 		for k, f := range ro.fails {
 			mu.Lock()
 			shrunk[f.Signature]++
@@ -737,7 +769,7 @@ func run(o Opts) (*Result, error) {
 		if len(cases) == 0 {
 			return nil
 		}
-		name, err := WriteShard(o.OutDir, shard, coqHeader, cases, "mismatches")
+		name, err := WriteShard(o.OutDir, shard, coqHeader, cases, "mismatches2")
 		if err != nil {
 			return err
 		}
